@@ -109,7 +109,7 @@ def main(modname, argv):
     ap.add_argument('--tier', default=os.environ.get('VERIF_TIER', 'quick'))
     ap.add_argument('--runs', type=int, default=None)
     ap.add_argument('--start', type=int, default=0)
-    ap.add_argument('--workers', type=int, default=int(os.environ.get('VERIF_WORKERS', '16')))
+    ap.add_argument('--workers', type=int, default=int(os.environ.get('VERIF_WORKERS', str(min(16, os.cpu_count() or 1)))))
     ap.add_argument('--replay', default=None)
     ap.add_argument('--no-shrink', action='store_true')
     ap.add_argument('--no-evidence', action='store_true')
